@@ -97,6 +97,14 @@ func NewMemoryCache[MetadataT any](cfg *config.Config, memoryBudgetPercent int, 
 		getLock: func(key CacheKey) *sync.RWMutex {
 			return getLock(c.locks, key)
 		},
+		getMetadata: func(key CacheKey) *EntryMetadata[MetadataT] {
+			c.mu.RLock()
+			defer c.mu.RUnlock()
+			if entry, ok := c.entries[key]; ok {
+				return entry.meta
+			}
+			return nil
+		},
 	})
 	c.janitor.start(ctx)
 
